@@ -32,6 +32,7 @@ RULES = [
     Rule('C03.R8', 'a scratch buffer of a chip wrapper sized through a rate-dependent object is re-allocated whenever that object is re-initialised, for the full block length', 2),
     Rule('C03.R9', 'a loop jump of the sequencer keeps the time the running tick still owes (the audio loop and Tick terminate because the owed time only shrinks)', 3),
     Rule('C03.R10', 'every stdio operation on a FILE* member that comes from fopen() is dominated by a NULL test of that member', 10),
+    Rule('C03.R11', 'every pointer parameter of an exported function is tested against NULL before it is dereferenced', 60),
     Rule('C03.R7', 'every access through a caller-provided (buffer, size) pair stays below the size', 20),
 ]
 EXPLANATION = ('Interval abstract interpretation (engine E2) of every reachable function of the core units: parameter ranges are the C types\' ranges for '
@@ -118,6 +119,7 @@ def analyse(facts, tier):
     obls += r9_loop_jump(facts)
     obls += r10_file_streams(facts)
     obls += r5_null_strings(facts)
+    obls += r11_null_params(facts)
     if res['leaf_seen'] < 0.97 * res['leaf_total']:
         raise build.AnalysisBroken('E2 reached only %d of %d statements: the interpreter is dropping paths' % (res['leaf_seen'], res['leaf_total']))
     return obls, {'e2_functions': res['functions'], 'e2_seconds': round(res['secs'], 2), 'field_ranges': len(res['field_ranges']),
@@ -710,4 +712,48 @@ def r5_null_strings(facts):
                                'the `const char *` parameter %s is converted to a std::string without a NULL test: a null pointer throws std::logic_error through the C API (abort)' % short(a0.get('n', ''))))
     if n < 2 and facts.view in ('V0', 'V1'):
         raise build.AnalysisBroken('C03.R5: string conversions of char* parameters in the API not found (%d)' % n)
+    return out
+
+
+def r11_null_params(facts):
+    """the C API is called with whatever pointers the host has: NULL is a representable argument value.  Inside the exported functions
+    of src/opnmidi.cpp every `p->f`, `*p`, `p[i]` on a pointer parameter is dominated by a test of that parameter (early return)."""
+    out = []
+    n = 0
+    for fn in facts.all_fns():
+        if not fn.name.startswith('opn2_') or fn.tree is None or fn.relfile() != 'src/opnmidi.cpp':
+            continue
+        pps = {p['id']: p for p in fn.params if (p.get('t') or {}).get('p')}
+        if not pps:
+            continue
+        seen = set()
+        for b, j, st in fn.cfg.stmts(conds=True):
+            for x in walk(st['s']):
+                tgt = None
+                if x.get('k') == 'UnaryOperator' and x.get('op') == '*':
+                    tgt = strip(x.get('e'))
+                elif x.get('k') == 'MemberExpr' and x.get('arrow'):
+                    tgt = strip(x.get('b'))
+                elif x.get('k') == 'ArraySubscriptExpr':
+                    tgt = strip(x.get('b'))
+                if not (isinstance(tgt, dict) and tgt.get('k') == 'DeclRefExpr' and tgt.get('id') in pps):
+                    continue
+                key = (tgt['id'], st['loc'])
+                if key in seen:
+                    continue
+                seen.add(key)
+                n += 1
+                ok = False
+                for g in guard_facts(fn, b, st):
+                    if g[0] == 'truth' and g[2] and strip(g[1]).get('id') == tgt['id']:
+                        ok = True
+                    if g[0] == 'cmp' and g[1] == '!=' and strip(g[2]).get('id') == tgt['id']:
+                        r = strip(g[3])
+                        if const_of(r) == 0 or (r.get('k') or '') in ('GNUNullExpr', 'CXXNullPtrLiteralExpr') or show(r) in ('GNUNullExpr', 'NULL', 'nullptr'):
+                            ok = True
+                out.append(Obl('C03.R11', fn.name, 'dereference of parameter %s' % short(tgt.get('n', '')), st['loc'], 'discharged' if ok else 'finding',
+                               why='tested against NULL first' if ok else
+                               'the pointer parameter %s is dereferenced without a NULL test (the sibling parameters of this call are tested): a null argument crashes inside the library' % short(tgt.get('n', '')), nontrivial=False))
+    if n < 60:
+        raise build.AnalysisBroken('C03.R11: only %d parameter dereferences found in the API' % n)
     return out
